@@ -95,11 +95,14 @@ def run_case(ti, c1, c2, desc_on, indent):
         url = "jsonfile://" + path + "?descriptors=" + ("true" if desc_on else "false") + ("&indent=2" if indent else "")
         from flow.record import RecordReader, RecordWriter
 
-        w = RecordWriter(url)
-        for r in recs:
-            w.write(r)
-        w.flush()
-        w.close()
+        try:
+            w = RecordWriter(url)
+            for r in recs:
+                w.write(r)
+            w.flush()
+            w.close()
+        except Exception as e:  # noqa: BLE001 - every candidate is a value JSON output supports
+            return f"writing raised {type(e).__name__}: {e}"
         text = open(path).read()
         return _judge(text, recs, D, desc_on, indent, lambda: list(RecordReader(path)))
 
